@@ -14,18 +14,24 @@
   setter refuses less —, any catalog, any keys), both transports, every response-buffer length the
   API admits, every clock value and every request octet string of at most `usize::MAX` octets.
 
-  Proved in full: the no-response conditions (`C03_no_response_iff`, for *all* requests).
-  Proved for every verdict the scan decides alone — FORMERR, BADVERS, NOTIMP, REFUSED, SERVFAIL for
-  a zone that is not loaded — the complete header echo and question echo (`C03_echo_partial`,
-  `C03_question_partial`, `C03_question_octets_partial`), as corollaries of the exact-octets theorem
-  `server_error_response`.
-  Not proved (hence `_partial`): the same echo when a loaded zone answers (verdict `answer`) or when
-  TSIG processing is reached (`tsigReached`): it needs the frame lemma "no writer operation issued by
-  src/server/query.rs / the TSIG helpers touches ID, QR, opcode, RD, RA, Z or the question octets"
-  over the answering model, which is not done. For those verdicts the property is covered by the
-  differential check only (audit tags `C03:*` on every generated case).
+  Proved in full (`C03 : C03_full`), for every request, catalog, key set, clock value, transport
+  and buffer:
+  * `C03_no_response_iff` — no response ⇔ shorter than 12 octets ∨ QR set ∨ QDCOUNT > 1;
+  * `C03_echo` — *every* response (error responses, answers from a loaded zone, TSIG-processed
+    requests alike) carries the request's ID and opcode, QR = 1, RD copied for QUERY only, RA and
+    Z/AD/CD clear, QDCOUNT = 1 exactly when the scan decoded a question, and that question's
+    uncompressed encoding as its question section. Method: the header copy and `add_question` write
+    these octets (view lemmas), and every writer operation issued afterwards — the section scans,
+    OPT/TSIG processing, the whole answering phase of src/server/query.rs, `finish` — is proved to
+    *frame* them (`Proofs/Frame.lean`, `Proofs/FrameServer.lean`, `Proofs/ServerEcho.lean`);
+  * `C03_question_octets` — if the request's QNAME is not compressed, the response's question
+    section is the request's, octet for octet (case preserved).
+  Additionally `C03_error_response_exact`: for the verdicts the scan decides alone the response
+  exists and is exactly `specErrorResponse`.
+  Scope: response rate limiting is off in this model (`rrl = None`); with RRL a response may also be
+  dropped or truncated (C26–C28), which C03 does not forbid.
 -/
-import QV.Proofs.QuestionOctets
+import QV.Proofs.ServerEcho
 
 namespace QV.C03
 open QV QV.Spec.Server QV.ServerScan
@@ -86,59 +92,65 @@ theorem C03_no_response_iff (cfg : Server.Cfg) (tr : Server.Transport) (now bufL
       (req.size < 12 ∨ (req.getD 2 0).toNat ≥ 128 ∨ hdr req 4 > 1) := by
   rw [handleMessage_none_iff cfg tr now bufLen req hbuf hpay (catKind cfg), C03_spec_no_response]
 
-/-! ### the echo, for every verdict the scan decides alone -/
+/-! ### the echo, for every response -/
 
-/-- **Theorem.** For every request the scan answers with FORMERR, BADVERS, NOTIMP, REFUSED or
-    SERVFAIL (zone not loaded): there *is* a response, its header echoes ID and opcode with QR set,
-    RD only for QUERY, RA/Z/AD/CD clear; and its question section is exactly the question the scan
-    decoded (none when it decoded none). -/
-theorem C03_echo_partial (cfg : Server.Cfg) (tr : Server.Transport) (now bufLen : Nat) (req : Bytes)
-    (hbuf : minBuf tr cfg.payload ≤ bufLen) (hpay : 512 ≤ cfg.payload) (hreq : req.size ≤ Rdata.USIZE_MAX)
-    (hr : (specScanWith (catKind cfg) cfg.payload req).respond = true)
-    (hv : noDataV (specScanWith (catKind cfg) cfg.payload req).verdict = true) :
-    ∃ b, Server.handleMessage cfg tr now bufLen req = .ok (some b) ∧ HeaderEcho req b ∧
-      QuestionEcho (specScanWith (catKind cfg) cfg.payload req).question b := by
-  obtain ⟨b, hb, hl⟩ := server_error_response cfg tr now bufLen req hbuf hpay hreq hr hv
-  obtain ⟨_, hid, h2, h3, hqd, _, _, _, hrest⟩ := errResp_facts _ _ _ _ hl
-  obtain ⟨f1, f2, _, _, f5, f6, f7, _⟩ := flags_facts b req _ (verdictRcode_lt _) h2 h3
-  refine ⟨b, hb, ⟨hid, f1, f2, f5, f6, f7⟩, ?_⟩
+/-- **Theorem (all responses).** Every response `handle_message` returns echoes the request's ID
+    and opcode with QR set, copies RD for opcode QUERY only, has RA and Z/AD/CD clear, and repeats
+    the question the scan decoded (QDCOUNT 0 and no question when it decoded none). -/
+theorem C03_echo (cfg : Server.Cfg) (tr : Server.Transport) (now bufLen : Nat) (req : Bytes)
+    (hbuf : minBuf tr cfg.payload ≤ bufLen) (hpay : 512 ≤ cfg.payload) (b : Bytes)
+    (h : Server.handleMessage cfg tr now bufLen req = .ok (some b)) :
+    HeaderEcho req b ∧ QuestionEcho (specScanWith (catKind cfg) cfg.payload req).question b := by
+  obtain ⟨e1, e2, e3, e4, e5, e6, e7, e8⟩ := response_echo cfg tr now bufLen req hbuf hpay b h
+  refine ⟨⟨e1, e2, e3, e4, e5, e6⟩, ?_⟩
   unfold QuestionEcho
   cases hq : (specScanWith (catKind cfg) cfg.payload req).question with
-  | none => rw [hq] at hqd; simpa using hqd
+  | none => rw [hq] at e7; simpa using e7
   | some q =>
-    rw [hq] at hqd hrest
-    refine ⟨by simpa using hqd, ?_⟩
-    rw [hrest]
-    have : specQuestionOctets (some q) = q.qname ++ u16be q.qtype ++ u16be q.qclass := rfl
-    rw [this]
-    apply List.take_left'
-    simp [Writer.u16be_length]
+    rw [hq] at e7 e8
+    refine ⟨by simpa using e7, ?_⟩
+    have hl : (qOctets (some q)).length = q.qname.length + 4 := by simp [qOctets, Writer.u16be_length]
+    rw [hl] at e8
+    rw [e8]
+    simp [qOctets]
 
-/-- **Corollary (octet for octet).** If moreover the request's QNAME is not compressed (the octets
-    at offset 12 are the decoded QNAME), the response's question section is octet-for-octet the
-    request's: QNAME with its case preserved, QTYPE, QCLASS. -/
-theorem C03_question_octets_partial (cfg : Server.Cfg) (tr : Server.Transport) (now bufLen : Nat) (req : Bytes)
-    (hbuf : minBuf tr cfg.payload ≤ bufLen) (hpay : 512 ≤ cfg.payload) (hreq : req.size ≤ Rdata.USIZE_MAX)
-    (hr : (specScanWith (catKind cfg) cfg.payload req).respond = true)
-    (hv : noDataV (specScanWith (catKind cfg) cfg.payload req).verdict = true)
+/-- **C03.** The property at full strength. -/
+theorem C03 : C03_full := by
+  intro cfg tr now bufLen req hbuf hpay _
+  refine ⟨?_, fun b hb => C03_echo cfg tr now bufLen req hbuf hpay b hb⟩
+  rw [handleMessage_none_iff cfg tr now bufLen req hbuf hpay (catKind cfg)]
+
+/-- **Corollary (octet for octet).** If the request's QNAME is not compressed (the octets at offset
+    12 are the decoded QNAME), the response's question section is octet-for-octet the request's:
+    QNAME with its case preserved, QTYPE, QCLASS. -/
+theorem C03_question_octets (cfg : Server.Cfg) (tr : Server.Transport) (now bufLen : Nat) (req : Bytes)
+    (hbuf : minBuf tr cfg.payload ≤ bufLen) (hpay : 512 ≤ cfg.payload) (b : Bytes)
+    (h : Server.handleMessage cfg tr now bufLen req = .ok (some b))
     (q : Spec.DQuestion) (hq : (specScanWith (catKind cfg) cfg.payload req).question = some q)
     (hlit : (req.extract 12 (12 + q.qname.length)).toList = q.qname) :
-    ∃ b, Server.handleMessage cfg tr now bufLen req = .ok (some b) ∧
-      (b.toList.drop 12).take (q.qname.length + 4) = (req.extract 12 (12 + q.qname.length + 4)).toList := by
-  obtain ⟨b, hb, _, hqe⟩ := C03_echo_partial cfg tr now bufLen req hbuf hpay hreq hr hv
+    (b.toList.drop 12).take (q.qname.length + 4) = (req.extract 12 (12 + q.qname.length + 4)).toList := by
+  obtain ⟨_, hqe⟩ := C03_echo cfg tr now bufLen req hbuf hpay b h
   rw [hq] at hqe
-  refine ⟨b, hb, ?_⟩
   rw [hqe.2]
   have hsq : ∃ nx, Spec.specQuestionAt req 12 = some (q.qname, q.qtype, q.qclass, nx) := by
-    rw [specScanWith_eq] at hq hr
+    rw [specScanWith_eq] at hq
     by_cases h12 : req.size < 12
-    · simp only [h12, if_true] at hr; cases hr
+    · simp only [h12, if_true] at hq; cases hq
     · by_cases hqr : (req.getD 2 0).toNat ≥ 128
-      · simp only [h12, hqr, if_false, if_true] at hr; cases hr
+      · simp only [h12, hqr, if_false, if_true] at hq; cases hq
       · simp only [h12, hqr, if_false] at hq
         exact specBody_question _ _ _ q hq
   obtain ⟨nx, hsq⟩ := hsq
   exact question_octets_eq_request req q.qname q.qtype q.qclass nx hsq hlit
+
+/-- for the verdicts the scan decides alone the response exists and is exactly the prescribed one -/
+theorem C03_error_response_exact (cfg : Server.Cfg) (tr : Server.Transport) (now bufLen : Nat) (req : Bytes)
+    (hbuf : minBuf tr cfg.payload ≤ bufLen) (hpay : 512 ≤ cfg.payload) (hreq : req.size ≤ Rdata.USIZE_MAX)
+    (hr : (specScanWith (catKind cfg) cfg.payload req).respond = true)
+    (hv : noDataV (specScanWith (catKind cfg) cfg.payload req).verdict = true) :
+    ∃ b, Server.handleMessage cfg tr now bufLen req = .ok (some b) ∧
+      b.toList = specErrorResponse req cfg.payload (specScanWith (catKind cfg) cfg.payload req) :=
+  server_error_response cfg tr now bufLen req hbuf hpay hreq hr hv
 
 /-! ### non-vacuity: concrete requests -/
 
